@@ -70,6 +70,8 @@ package golang
 // ---- the dispatch under the locks ----
 
 // (the key is passed as its bytes now: old() then only reaches the store, not the byte heap the key is read from)
+// (the watermark at entry admits the data; the key is passed as its bytes for the same reason as above)
+//@ spec attAdmits(pk Bytes, d *rules.SignBeaconAttestationData) bool = attOK(old(wmAttS(pk)), old(wmAttT(pk)), d.Source.Epoch, d.Target.Epoch, prefix4(d.Domain))
 //@ spec attApproved(pk Bytes, d *rules.SignBeaconAttestationData) bool = old(wmAttOk(pk)) && attOK(old(wmAttS(pk)), old(wmAttT(pk)), d.Source.Epoch, d.Target.Epoch, prefix4(d.Domain)) && wmAttOk(pk) && wmAttS(pk) == d.Source.Epoch && wmAttT(pk) == d.Target.Epoch
 //@ spec propApproved(pk Bytes, d *rules.SignBeaconProposalData) bool = old(wmPropOk(pk)) && propOK(old(wmPropL(pk)), d.Slot, prefix4(d.Domain)) && wmPropOk(pk) && wmPropL(pk) == d.Slot
 
@@ -159,7 +161,8 @@ package golang
 //@ ensures [dbframe] forall k Bytes :: (forall i int :: 0 <= i && i < len(rulesData) ==> k != attKey(bytes(rulesData[i].PubKey))) ==> ((k in db) <==> old(k in db)) && db[k] == old(db[k])
 //@ ensures [att-compl] store_ok && credentials != nil && credentials.Client != "" && (forall j int :: 0 <= j && j < len(rulesData) ==> rulesData[j].AccountName != "" && hastype(rulesData[j].Data, "*rules.SignBeaconAttestationData")) && (forall j int :: 0 <= j && j < len(rulesData) ==> old(wmAttOk(bytes(rulesData[j].PubKey)))) ==> (forall i int :: 0 <= i && i < len(rulesData) && attOK(old(wmAttS(bytes(rulesData[i].PubKey))), old(wmAttT(bytes(rulesData[i].PubKey))), unbox(rulesData[i].Data, "*rules.SignBeaconAttestationData").Source.Epoch, unbox(rulesData[i].Data, "*rules.SignBeaconAttestationData").Target.Epoch, prefix4(unbox(rulesData[i].Data, "*rules.SignBeaconAttestationData").Domain)) ==> result[i] == rules.APPROVED)
 //@ hint-after before:OnSignBeaconAttestations@1 [ready] credentials != nil && credentials.Client != "" && (forall j int :: 0 <= j && j < len(rulesData) ==> rulesData[j].AccountName != "" && hastype(rulesData[j].Data, "*rules.SignBeaconAttestationData")) ==> len(metadatas) == len(reqData) && (forall j int :: 0 <= j && j < len(rulesData) ==> metadatas[j] != nil && reqData[j] != nil && metadatas[j].PubKey == rulesData[j].PubKey && reqData[j] == unbox(rulesData[j].Data, "*rules.SignBeaconAttestationData") && reqData[j].Source != nil && reqData[j].Target != nil)
-//@ hint-after before:OnSignBeaconAttestations@1 [hyp] store_ok && credentials != nil && credentials.Client != "" && (forall j int :: 0 <= j && j < len(rulesData) ==> rulesData[j].AccountName != "" && hastype(rulesData[j].Data, "*rules.SignBeaconAttestationData")) && (forall j int :: 0 <= j && j < len(rulesData) ==> wmAttOk(bytes(rulesData[j].PubKey))) ==> store_ok && len(metadatas) == len(reqData) && (forall j int :: 0 <= j && j < len(reqData) ==> metadatas[j] != nil && reqData[j] != nil && reqData[j].Source != nil && reqData[j].Target != nil && wmAttOk(bytes(metadatas[j].PubKey)))
+//@ hint-after before:OnSignBeaconAttestations@1 [hyp] store_ok && credentials != nil && credentials.Client != "" && (forall j int :: 0 <= j && j < len(rulesData) ==> rulesData[j].AccountName != "" && hastype(rulesData[j].Data, "*rules.SignBeaconAttestationData")) && (forall j int :: 0 <= j && j < len(rulesData) ==> old(wmAttOk(bytes(rulesData[j].PubKey)))) ==> store_ok && len(metadatas) == len(reqData) && (forall j int :: 0 <= j && j < len(reqData) ==> metadatas[j] != nil && reqData[j] != nil && reqData[j].Source != nil && reqData[j].Target != nil && wmAttOk(bytes(metadatas[j].PubKey)))
+//@ hint-after OnSignBeaconAttestations@1 [res-md] store_ok && credentials != nil && credentials.Client != "" && (forall j int :: 0 <= j && j < len(rulesData) ==> rulesData[j].AccountName != "" && hastype(rulesData[j].Data, "*rules.SignBeaconAttestationData")) && (forall j int :: 0 <= j && j < len(rulesData) ==> old(wmAttOk(bytes(rulesData[j].PubKey)))) ==> (forall i int :: 0 <= i && i < len(reqData) && attAdmits(bytes(metadatas[i].PubKey), reqData[i]) ==> result[i] == rules.APPROVED)
 //@ loop #1
 //@ invariant [range] 0 <= _n && _n <= len(rulesData) && len(results) == len(rulesData) && fresh(results)
 //@ invariant [unknown] forall j int :: 0 <= j && j < _n ==> results[j] == rules.UNKNOWN
